@@ -241,7 +241,9 @@ func (h *Host) handleBeforeMessageStored(msg event.InboundMessage) *event.Inboun
 
 // Common preparation for calling Lua functions.
 func (h *Host) prepareInbucketFuncCall(funcName string) (logger zerolog.Logger, ls *lua.LState, ib *Inbucket, ok bool) {
-	logger = h.logContext.Str("event", funcName).Logger()
+	// Derive the logger from a copy of the shared context; Context.Str appends in place and is not
+	// safe for concurrent use.
+	logger = h.logContext.Logger().With().Str("event", funcName).Logger()
 
 	ls, err := h.pool.getState()
 	if err != nil {
